@@ -162,7 +162,11 @@ def examine_pipeline(case, out: Outcome, *, backends=("polars", "sqlite"), ref_c
     if "polars" in backends:
         pl = build.build(case2, "polars")
         run.built["polars"] = pl
-        if pl.error is not None:
+        if pl.error is not None and case2["steps"][pl.error[0]]["verb"] in ("collect", "rematerialize") and engine_quirk(
+                pl.error[1], case2, run.ref):
+            # collect executes the pipeline at the verb call
+            out.count("engine_quirk:" + engine_quirk(pl.error[1], case2, run.ref))
+        elif pl.error is not None:
             k, ex = pl.error
             out.fail("internal-error", f"polars:{case2['steps'][k]['verb']}:{exc_name(ex)}:{innermost_repo_frame(ex)}",
                      f"Polars verb call `{case2['steps'][k]['verb']}` raised {exc_name(ex)}: {ex}", step=k)
